@@ -315,6 +315,7 @@ inductive Op
   | clear
   | reset (hs : Option (Nat × Nat))
   | best (b : Block)
+  | ccprog (id st : Nat)
 deriving Repr
 
 /-- One operation: new state and how the call ended. -/
@@ -330,10 +331,131 @@ def step (s : St) : Op → St × Res
   | .clear => (clearWAL s, .ok)
   | .reset hs => resetWAL s hs
   | .best b => (connectBest s b, .ok)
+  | .ccprog id st => ({ s with ccp := if id = 0 then s.ccp else upd s.ccp id st }, .ok)   -- WriteConfChangeProgress
 
 def applyOp (s : St) (op : Op) : St := (step s op).1
 
 def run (s : St) (ops : List Op) : St := ops.foldl applyOp s
+
+/-! ## Write units: the durable states inside one operation (crash points)
+
+Every `dbTx.Commit()` / `bulk.Flush()` of an operation is one durable write unit. `unitStates s op`
+lists the store after each unit of `op` started in `s`, in program order; a crash can leave the
+disk in `s` or in any of these states. (`best` is a memory-only field: it is rebuilt by `restart`.) -/
+
+/-- `WriteRaftEntry` is a single transaction: one unit when it succeeds, none when it panics. -/
+def writeStates (s : St) (items : List Item) : List St :=
+  match writeRaftEntry s items with
+  | (s', .ok) => [s']
+  | _ => []
+
+/-- First commit of `ClearWAL`: identity, hard state, snapshot. -/
+def clearWAL1 (s : St) : St := { s with ident := none, hard := none, snap := none }
+
+def unitStates (s : St) : Op → List St
+  | .write items => writeStates s items
+  | .save hs ents =>
+    if ents.isEmpty then (if hs = ⟨0, 0, 0⟩ then [] else [{ s with hard := some hs }])
+    else match writeRaftEntry s (ents.map convertFromRaft) with
+      | (s1, .ok) => if hs = ⟨0, 0, 0⟩ then [s1] else [s1, { s1 with hard := some hs }]
+      | _ => []
+  | .hard hs => [{ s with hard := some hs }]
+  | .snap sn => [{ s with snap := some sn }]
+  | .ident id => [{ s with ident := some id }]
+  | .restart => []
+  | .clear => [clearWAL1 s, clearWAL s]
+  | .reset none => []
+  | .reset (some (term, commit)) =>
+    let s2 := { clearWAL s with hard := some ⟨term, 0, commit⟩ }
+    match s2.best with
+    | none => [clearWAL1 s, clearWAL s, s2]
+    | some b =>
+      let s3 := { s2 with snap := some ⟨commit, term, b⟩ }
+      [clearWAL1 s, clearWAL s, s2, s3, { s3 with lastKey := some commit }]
+  | .best b => [connectBest s b]
+  | .ccprog id st => if id = 0 then [] else [{ s with ccp := upd s.ccp id st }]
+
+/-- The store before the operation and after each of its write units. -/
+def prefixStates (s : St) (op : Op) : List St := s :: unitStates s op
+
+/-- Several operations in a row (one `Ready` of the server loop: SaveEntry, then WriteSnapshot). -/
+def prefixStatesSeq : St → List Op → List St
+  | s, [] => [s]
+  | s, op :: rest => s :: (unitStates s op ++ (prefixStatesSeq (applyOp s op) rest).drop 1)
+
+/-! ## The restart hand-over: HasWal → loadSnapshot → replayWAL → raft restart -/
+
+/-- The identity the node is configured with (`cluster.identity` before the WAL is read). -/
+structure Config where
+  name : String
+  peer : String
+deriving DecidableEq, Repr
+
+/-- `ChainDB.HasWal(identity)`. -/
+inductive WalState
+  | noIdentity | nameMismatch | peerMismatch | noHardState | ok
+deriving DecidableEq, Repr
+
+def hasWal (s : St) (cfg : Config) : WalState :=
+  match s.ident with
+  | none => .noIdentity
+  | some id =>
+    if id.name ≠ cfg.name then .nameMismatch
+    else if id.peer ≠ cfg.peer then .peerMismatch
+    else match s.hard with
+      | none => .noHardState
+      | some _ => .ok
+
+/-- What `replayWAL` puts into the fresh `raft.MemoryStorage` of the restarted node. -/
+structure Handed where
+  snap : Option Snapshot
+  hard : HardState
+  ents : List RaftOut
+  ident : Identity
+deriving DecidableEq, Repr
+
+inductive FatalWhy
+  | read (e : ReadErr) | identity | snapOutOfDate
+deriving DecidableEq, Repr
+
+inductive HandRes
+  | noWal (w : WalState)         -- the node starts as a new / joining node
+  | emptyLog                     -- last = 0 and no snapshot: cluster info is fetched from a peer first
+  | fatal (w : FatalWhy)         -- `logger.Fatal`: the node does not come up
+  | raftPanics (h : Handed)      -- etcd/raft refuses what it is handed (newRaft / loadState)
+  | ok (h : Handed)
+deriving DecidableEq, Repr
+
+/-- What etcd/raft requires of the storage it is restarted on (`raft.newRaft`: `Config.validate`,
+`loadState`): a node id, and a commit index inside `[snapshot index, last index]` unless the hard state is empty.
+This is library behaviour (trusted transcription of etcd/raft `raft.go`), the only part of the library the model contains. -/
+def raftAccepts (nodeId snapIdx : Nat) (hs : HardState) (n : Nat) : Bool :=
+  nodeId != 0 && (hs == ⟨0, 0, 0⟩ || (snapIdx ≤ hs.commit && hs.commit ≤ snapIdx + n))
+
+/-- `startRaft` (restart branch) → `restartNode`: `HasWal`, `isEmptyLog`, `loadSnapshot`,
+`replayWAL` (`ReadAll(snapshot)`, `RecoverIdentity`, `ApplySnapshot`, commit index raised to the snapshot's,
+`SetHardState`, `Append`), raft restart. -/
+def handOver (s : St) (cfg : Config) : HandRes :=
+  match hasWal s cfg with
+  | .ok =>
+    if lastIdx s = 0 ∧ s.snap = none then .emptyLog
+    else
+      match readAll s (s.snap.map fun sn => (sn.index, sn.term)) with
+      | .error e => .fatal (.read e)
+      | .ok (id, hs, es) =>
+        match id with
+        | none => .fatal .identity
+        | some idn =>
+          if idn.clusterId = 0 then .fatal .identity
+          else if (s.snap.map (·.index)) = some 0 then .fatal .snapOutOfDate
+          else
+            -- replayWAL: what a snapshot contains is committed (a crash between the snapshot and the
+            -- hard state of the Ready that installed it leaves an older commit index)
+            let snapIdx := (s.snap.map (·.index)).getD 0
+            let hs' : HardState := if hs.commit < snapIdx then { hs with commit := snapIdx } else hs
+            let h : Handed := ⟨s.snap, hs', es, idn⟩
+            if raftAccepts idn.id snapIdx hs' es.length then .ok h else .raftPanics h
+  | w => .noWal w
 
 /-! ## Membership -/
 
@@ -455,5 +577,106 @@ def changeAccepted (cl : Cluster) (r : Raft) (ccType : Nat) (m : Option Member) 
   match m with
   | none => false
   | some mm => validate cl ccType m == .ok && enable r ccType mm.id == .ok
+
+/-! ## The production request path and the raft-log path of a membership change -/
+
+/-- `types.MembershipChange`: `typ` 0 = ADD_MEMBER, 1 = REMOVE_MEMBER. -/
+structure Req where
+  typ : Nat
+  id : Nat
+  name : String
+  addr : String
+  addrOk : Bool
+  peer : Bytes
+deriving DecidableEq, Repr
+
+inductive CMRes
+  | ok | pending | invalidReqType | invalidAttr | invalidId | v (r : VRes) | e (r : ERes) | notLeader
+deriving DecidableEq, Repr
+
+/-- `Cluster.makeProposal`: pending-change check, `NewMemberFromAddReq` / `NewMemberFromRemoveReq`,
+`makeConfChange`, `validateChangeMembership`. `genId` is the id `NewMember` derives for an added member
+(a hash of name, chain id and the current time — an input of the model). -/
+def makeProposal (cl : Cluster) (pending : Bool) (req : Req) (genId : Nat) : Except CMRes Member :=
+  if pending then .error .pending
+  else if req.typ = 0 then
+    if req.name.isEmpty || req.addr.isEmpty || req.peer.isEmpty then .error .invalidAttr
+    else
+      let m : Member := ⟨genId, req.name, req.addr, req.addrOk, req.peer⟩
+      match validate cl ccAdd (some m) with
+      | .ok => .ok m
+      | r => .error (.v r)
+  else if req.typ = 1 then
+    if req.id = 0 then .error .invalidId
+    else
+      let m : Member := ⟨req.id, "", "", false, []⟩
+      match validate cl ccRemove (some m) with
+      | .ok => .ok m
+      | r => .error (.v r)
+  else .error .invalidReqType
+
+/-- `Cluster.ChangeMembership(req, nowait)` up to the hand-over to raft: `makeProposal`, then
+`isEnableChangeMembership`, then `submitProposal` (which succeeds when nothing is pending). -/
+def changeMembership (cl : Cluster) (r : Raft) (pending : Bool) (req : Req) (genId : Nat) : CMRes :=
+  match makeProposal cl pending req genId with
+  | .error e => e
+  | .ok m =>
+    match enable r req.typ m.id with
+    | .ok => .ok
+    | e => .e e
+
+/-- `BlockFactory.MakeConfChangeProposal`: only the leader; then as `ChangeMembership` without the submit. -/
+def makeConfChangeProposal (cl : Cluster) (r : Raft) (pending : Bool) (req : Req) (genId : Nat) : CMRes :=
+  if !r.leader then .notLeader else changeMembership cl r pending req genId
+
+/-- `raftServer.applyConfChange` on a committed conf-change entry carrying member `m`:
+`ValidateConfChangeEntry` (→ `validateChangeMembership`), and only if it passes `addMember` /
+`removeMember` (the removed member's id joins the removed set). A refused entry changes nothing. -/
+def applyConfChange (cl : Cluster) (ccType : Nat) (m : Member) : Cluster × VRes :=
+  match validate cl ccType (some m) with
+  | .ok =>
+    if ccType = ccAdd then (⟨cl.applied ++ [m], cl.removed⟩, .ok)
+    else (⟨cl.applied.filter (fun p => p.id != m.id), cl.removed ++ [m.id]⟩, .ok)
+  | r => (cl, r)
+
+/-! ## Cluster.Recover (snapshot catch-up, restart) -/
+
+/-- The cluster with the removed members in full (what a snapshot carries). -/
+structure ClusterF where
+  applied : List Member
+  removed : List Member
+deriving Repr
+
+def ClusterF.toCluster (c : ClusterF) : Cluster := ⟨c.applied, c.removed.map (·.id)⟩
+
+/-- `Member.Equal` (id, peer id, name, address). -/
+def memberEq (a b : Member) : Bool := a.id == b.id && a.peer == b.peer && a.name == b.name && a.addr == b.addr
+
+/-- `sort.Sort(consensus.MembersByName(…))`. -/
+def sortByName (ms : List Member) : List Member := ms.mergeSort (fun a b => decide (a.name ≤ b.name))
+
+/-- The closure `membersEqual` of `isAllMembersEqual`: same length, pairwise `Equal`. -/
+def membersEqual : List Member → List Member → Bool
+  | [], [] => true
+  | a :: x, b :: y => memberEq a b && membersEqual x y
+  | _, _ => false
+
+/-- `Cluster.isAllMembersEqual(members, removedMembers)`. -/
+def isAllMembersEqual (cl : ClusterF) (ms rs : List Member) : Bool :=
+  membersEqual (sortByName cl.applied) (sortByName ms) && membersEqual (sortByName cl.removed) (sortByName rs)
+
+/-- `addMember(m, applied = true)` for each member of the snapshot on the emptied cluster:
+fails (`ErrMemberAlreadyApplied`) when an id occurs twice. -/
+def addAll : List Member → List Member → Option (List Member)
+  | acc, [] => some acc
+  | acc, m :: rest => if acc.any (fun p => p.id == m.id) then none else addAll (acc ++ [m]) rest
+
+/-- `Cluster.Recover(snapshot)`: nothing to do when applied and removed members equal the snapshot's;
+otherwise the cluster is emptied and rebuilt from the snapshot. `none` = error. The flag is `isEqual`. -/
+def recover (cl : ClusterF) (ms rs : List Member) : Option (ClusterF × Bool) :=
+  if isAllMembersEqual cl ms rs then some (cl, true)
+  else match addAll [] ms with
+    | none => none
+    | some ap => some (⟨ap, rs⟩, false)
 
 end Aergo.RaftLog
